@@ -131,7 +131,19 @@ def trace_for(tid, rng, quick):
     n_c = rng.choice([1, 2])
     length = rng.choice([1, 2, 2, 3, 4, 5, 6, 7])
     prog = cz.random_program(rng, n_e, n_p, n_c, length, wrappers=cz.library_wrappers(), p_measure=0.2)
+    if rng.random() < 0.35 and n_e + n_p >= 2:
+        # two consecutive two-qubit operations on the same pair of registers (their nodes are joined by two edges)
+        regs = [["e", i] for i in range(n_e)] + [["p", i] for i in range(n_p)]
+        a, b = rng.sample(regs, 2)
+        prog = prog + [{"k": rng.choice(cz.TWOQ), "r": [a, b], "c": None},
+                       {"k": rng.choice(cz.TWOQ + ["ClassicalCNOT", "ClassicalCZ"]), "r": [a, b], "c": None}]
+        if prog[-1]["k"].startswith("Classical"):
+            prog[-1]["c"] = rng.randrange(n_c)
     variants = near_misses(rng, prog, n_e, n_p, n_c)
+    if len(prog) >= 2 and len(prog[-1]["r"]) == 2 and sorted(map(tuple, prog[-1]["r"])) == sorted(map(tuple, prog[-2]["r"])):
+        p2 = copy.deepcopy(prog)
+        p2[-1]["r"] = p2[-1]["r"][::-1]
+        variants.append(("swap-second-of-pair", p2, False))
     other = cz.random_program(rng, n_e, n_p, n_c, rng.randint(2, 7), p_measure=0.2)
     variants.append(("random-other", other, False))
     circuits, tags = [], []
